@@ -137,3 +137,13 @@ def seq_snoc(s, x):
 
 def seq_empty(like):
     return []
+
+
+def yaml_file(doc):
+    """natively: write the document to a temporary YAML file and return its path (so a replay runs
+    the real loader on a real file); symbolically: a fixed path (the file system is not modelled)"""
+    import tempfile, yaml
+    f = tempfile.NamedTemporaryFile("w", suffix=".yaml", delete=False)
+    yaml.safe_dump(doc, f)
+    f.close()
+    return f.name
